@@ -50,6 +50,11 @@ impl ModelDoc {
             for f in ["k", "k_idx"] {
                 fields.insert(f.to_string(), vec![V::S(tokens[0].clone())]);
             }
+            // multi-valued: one value per "b" token (its position); documents without a "b" hold no value
+            let bs: Vec<V> = tokens.iter().enumerate().filter(|(_, t)| *t == "b").map(|(p, _)| V::U(p as u64)).collect();
+            if !bs.is_empty() {
+                fields.insert("mnum".to_string(), bs);
+            }
         }
         ModelDoc { id, tokens, fields }
     }
@@ -77,6 +82,7 @@ pub fn schema() -> Fields {
     sb.add_date_field("date", INDEXED | FAST);
     sb.add_ip_addr_field("ip", INDEXED | FAST);
     sb.add_bool_field("flag", INDEXED | FAST);
+    sb.add_u64_field("mnum", INDEXED | FAST);
     let schema = sb.build();
     Fields { schema, id, body }
 }
